@@ -16,6 +16,11 @@ type Term struct {
 	p1   int    // extract hi / ext amount
 	p2   int    // extract lo
 	id   int
+	// integer view: safe means the term denotes the same value under bit-vector and unbounded-integer
+	// semantics for every assignment of its variables within their declared ranges, and that value
+	// lies in [lo, hi] (64-bit terms are read as signed, narrower ones as unsigned).
+	safe   bool
+	lo, hi int64
 }
 
 // TermFactory hash-conses terms; one per executor (not thread safe).
@@ -61,6 +66,7 @@ func (f *TermFactory) mk(t *Term) *Term {
 	t.id = len(f.terms)
 	f.terms = append(f.terms, t)
 	f.tab[k] = t
+	f.computeSafe(t)
 	if t.op == "var" {
 		f.vars = append(f.vars, t)
 	}
@@ -78,6 +84,168 @@ func (f *TermFactory) Bool(b bool) *Term {
 }
 func (f *TermFactory) Var(name string, w int) *Term {
 	return f.mk(&Term{op: "var", w: w, name: name})
+}
+
+// VarRanged declares a variable whose value is constrained (by the caller, in the path condition)
+// to [lo, hi]; the range feeds the overflow analysis that licenses the integer encoding.
+func (f *TermFactory) VarRanged(name string, w int, lo, hi int64) *Term {
+	t := f.Var(name, w)
+	if !t.safe || t.lo < lo || t.hi > hi {
+		t.safe, t.lo, t.hi = true, lo, hi
+	}
+	return t
+}
+
+const safeLimit = int64(1) << 61
+
+func (f *TermFactory) computeSafe(t *Term) {
+	all := func() bool {
+		for _, a := range t.args {
+			if !a.safe {
+				return false
+			}
+		}
+		return true
+	}
+	rng := func(lo, hi int64) {
+		if lo < -safeLimit || hi > safeLimit || lo > hi {
+			t.safe = false
+			return
+		}
+		t.safe, t.lo, t.hi = true, lo, hi
+	}
+	switch t.op {
+	case "const":
+		if t.w == 0 {
+			t.safe = true
+			return
+		}
+		if t.w == 64 {
+			rng(t.SVal(), t.SVal())
+		} else {
+			rng(int64(t.val), int64(t.val))
+		}
+	case "var":
+		if t.w == 0 {
+			t.safe = true
+		} else if t.w < 64 {
+			rng(0, int64(mask(t.w)))
+		}
+	case "not", "and", "or":
+		t.safe = all()
+	case "=":
+		t.safe = all() && (t.args[0].w == 0 || true)
+	case "ite":
+		if !all() {
+			return
+		}
+		if t.w == 0 {
+			t.safe = true
+			return
+		}
+		a, b := t.args[1], t.args[2]
+		lo, hi := a.lo, a.hi
+		if b.lo < lo {
+			lo = b.lo
+		}
+		if b.hi > hi {
+			hi = b.hi
+		}
+		rng(lo, hi)
+	case "bvadd":
+		if all() && t.w == 64 {
+			rng(t.args[0].lo+t.args[1].lo, t.args[0].hi+t.args[1].hi)
+		}
+	case "bvsub":
+		if all() && t.w == 64 {
+			rng(t.args[0].lo-t.args[1].hi, t.args[0].hi-t.args[1].lo)
+		}
+	case "bvneg":
+		if all() && t.w == 64 {
+			rng(-t.args[0].hi, -t.args[0].lo)
+		}
+	case "bvmul":
+		if all() && t.w == 64 && t.args[1].IsConst() {
+			c := t.args[1].SVal()
+			if c > -(1<<20) && c < (1<<20) && t.args[0].lo > -(1<<40) && t.args[0].hi < (1<<40) {
+				x, y := t.args[0].lo*c, t.args[0].hi*c
+				if x > y {
+					x, y = y, x
+				}
+				rng(x, y)
+			}
+		}
+	case "bvslt", "bvsle":
+		t.safe = all() && t.args[0].w == 64
+	case "bvult", "bvule":
+		// unsigned comparison agrees with the integer one when both sides are non-negative
+		t.safe = all() && t.args[0].lo >= 0 && t.args[1].lo >= 0
+	case "zext":
+		if all() && t.args[0].w < 64 {
+			rng(t.args[0].lo, t.args[0].hi)
+		}
+	case "sext":
+		// narrower terms are read as unsigned: sign extension is only the identity below the sign bit
+		if all() && t.args[0].w < 64 && t.args[0].hi < int64(1)<<uint(t.args[0].w-1) {
+			rng(t.args[0].lo, t.args[0].hi)
+		}
+	case "extract":
+		if all() && t.p2 == 0 && t.args[0].lo >= 0 && t.args[0].hi <= int64(mask(t.w)) && t.w < 64 {
+			rng(t.args[0].lo, t.args[0].hi)
+		}
+	}
+}
+
+// iref / ibody: the integer (LIA) rendering of a safe term.
+func (t *Term) iref() string {
+	switch t.op {
+	case "const":
+		if t.w == 0 {
+			return t.ref()
+		}
+		v := t.lo
+		if v < 0 {
+			return fmt.Sprintf("(- %d)", -v)
+		}
+		return fmt.Sprintf("%d", v)
+	case "var":
+		return "|" + t.name + "|"
+	}
+	return fmt.Sprintf("i%d", t.id)
+}
+
+func (t *Term) ibody() string {
+	op := t.op
+	switch t.op {
+	case "bvadd":
+		op = "+"
+	case "bvsub":
+		op = "-"
+	case "bvmul":
+		op = "*"
+	case "bvneg":
+		op = "-"
+	case "bvslt", "bvult":
+		op = "<"
+	case "bvsle", "bvule":
+		op = "<="
+	case "zext", "sext", "extract":
+		return t.args[0].iref()
+	}
+	var sb strings.Builder
+	sb.WriteString("(" + op)
+	for _, a := range t.args {
+		sb.WriteString(" " + a.iref())
+	}
+	sb.WriteString(")")
+	return sb.String()
+}
+
+func isortStr(w int) string {
+	if w == 0 {
+		return "Bool"
+	}
+	return "Int"
 }
 
 func (t *Term) IsConst() bool { return t.op == "const" }
